@@ -12,6 +12,9 @@ at the top-level directory.
 #include <stdio.h>
 #include <stdlib.h>
 #include "slu_mt_sdefs.h"
+#ifdef SLU_MT_VERIF
+#include "slu_mt_verif.h"
+#endif /* SLU_MT_VERIF */
 
 #define PRINT_SPIN_TIME(where)  { \
   if ( t2 > 0.001 ) { \
@@ -166,6 +169,9 @@ if (jcol == BADPAN)
 	pmod = Gstat->procstat[pnum].fcops;
 #endif
 	    
+#ifdef SLU_MT_VERIF
+	SLUV_EVENT(SLUV_E_SN_READ_BEGIN, pnum, jcol, fsupc, krep, w, 0);
+#endif /* SLU_MT_VERIF */
 	if ( nsupc >= colblk && nrow >= rowblk ) {
 	    /* 2-D block update */
 #ifdef GEMV2
@@ -190,6 +196,9 @@ if (jcol == BADPAN)
 #endif
 	}
 	
+#ifdef SLU_MT_VERIF
+	SLUV_EVENT(SLUV_E_SN_READ_END, pnum, jcol, fsupc, krep, 0, 0);
+#endif /* SLU_MT_VERIF */
 #ifdef PREDICT_OPT
 	pmod = Gstat->procstat[pnum].fcops - pmod;
 	kid = (Glu->pan_status[krep].size > 0) ?
@@ -247,10 +256,16 @@ if (jcol == BADPAN)
 	col_lsub = panel_lsub;
 
 	/* Wait for the supernode, and collect wait-time statistics. */
+#ifdef SLU_MT_VERIF
+	SLUV_YIELD(SLUV_Y_BEFORE_WAIT);
+#endif /* SLU_MT_VERIF */
 	if ( pxgstrf_shared->spin_locks[kcol] ) {
 #ifdef PROFILE
 	    TIC(t1);
 #endif
+#ifdef SLU_MT_VERIF
+	    SLUV_EVENT(SLUV_E_WAIT_BEGIN, pnum, jcol, kcol, 0, 0, 0);
+#endif /* SLU_MT_VERIF */
 	    await( &pxgstrf_shared->spin_locks[kcol] );
 
 #ifdef PROFILE
@@ -264,6 +279,10 @@ if (jcol == BADPAN)
 #endif		
 	}
 	
+#ifdef SLU_MT_VERIF
+	SLUV_TSAN_ACQUIRE(&pxgstrf_shared->spin_locks[kcol]);
+	SLUV_EVENT(SLUV_E_WAIT_END, pnum, jcol, kcol, 0, 0, 0);
+#endif /* SLU_MT_VERIF */
         /* Find leading column "fsupc" in the supernode that
            contains column "kcol" */
 	ksupno = supno[kcol];
@@ -279,13 +298,22 @@ if (jcol == BADPAN)
 	/* Wait for the whole supernode to become "done" --
 	   climb up e-tree one column at a time */
 	do {
+#ifdef SLU_MT_VERIF
+	    SLUV_TSAN_IGNORE_READS_BEGIN(); /* speculative; re-validated after the wait */
+#endif /* SLU_MT_VERIF */
 	    krep = SUPER_REP( ksupno );
+#ifdef SLU_MT_VERIF
+	    SLUV_TSAN_IGNORE_READS_END();
+#endif /* SLU_MT_VERIF */
 	    kcol = etree[kcol];
 	    if ( kcol >= jcol ) break;
 	    if ( pxgstrf_shared->spin_locks[kcol] ) {
 #ifdef PROFILE
 		TIC(t1);
 #endif
+#ifdef SLU_MT_VERIF
+		SLUV_EVENT(SLUV_E_WAIT_BEGIN, pnum, jcol, kcol, 0, 0, 0);
+#endif /* SLU_MT_VERIF */
 		await ( &pxgstrf_shared->spin_locks[kcol] );
 
 #ifdef PROFILE
@@ -299,6 +327,10 @@ if (jcol == BADPAN)
 #endif		
 	    }
 
+#ifdef SLU_MT_VERIF
+	    SLUV_TSAN_ACQUIRE(&pxgstrf_shared->spin_locks[kcol]);
+	    SLUV_EVENT(SLUV_E_WAIT_END, pnum, jcol, kcol, 0, 0, 0);
+#endif /* SLU_MT_VERIF */
 	    dadsupno = supno[kcol];
 
 #if ( DEBUGlevel>=2 )
@@ -355,6 +387,10 @@ if ( jcol==BADCOL )
 	       busy s-node [kcol : krep] as the new fills, even if the
 	       corresponding U-segment may be all zero. */
 
+#ifdef SLU_MT_VERIF
+	    SLUV_EVENT(SLUV_E_SUB_READ_BEGIN, pnum, jcol, krep, xlsub[krep], xlsub_end[krep], 0);
+	    SLUV_YIELD(SLUV_Y_SUB_READ);
+#endif /* SLU_MT_VERIF */
 	    /* Append new fills in panel_lsub[*,jj]. */
 	    j = w_lsub_end[jj - jcol];
 /*#pragma ivdep*/
@@ -365,6 +401,9 @@ if ( jcol==BADCOL )
 		    col_lsub[j++] = ksub;
 		}
 	    }
+#ifdef SLU_MT_VERIF
+	    SLUV_EVENT(SLUV_E_SUB_READ_END, pnum, jcol, krep, 0, 0, 0);
+#endif /* SLU_MT_VERIF */
 	    w_lsub_end[jj - jcol] = j;
 #endif
 
@@ -386,6 +425,9 @@ printf("(%d) psgstrf_panel_bmod[fills] xlsub %d, xlsub_end %d, #lsub[%d] %d\n",
 	nsupc = krep - fsupc + 1;
 	nsupr = xlsub_end[fsupc] - xlsub[fsupc];
 	nrow = nsupr - nsupc;
+#ifdef SLU_MT_VERIF
+	SLUV_EVENT(SLUV_E_SN_READ_BEGIN, pnum, jcol, fsupc, krep, w, 1);
+#endif /* SLU_MT_VERIF */
 	if ( nsupc >= colblk && nrow >= rowblk ) {
 	    /* 2-D block update */
 #ifdef GEMV2
@@ -410,6 +452,9 @@ printf("(%d) psgstrf_panel_bmod[fills] xlsub %d, xlsub_end %d, #lsub[%d] %d\n",
 #endif
 	}
 
+#ifdef SLU_MT_VERIF
+	SLUV_EVENT(SLUV_E_SN_READ_END, pnum, jcol, fsupc, krep, 0, 0);
+#endif /* SLU_MT_VERIF */
 #ifdef PREDICT_OPT
 	pmod = Gstat->procstat[pnum].fcops - pmod;
 	kid = (pxgstrf_shared->pan_status[krep].size > 0) ?
